@@ -18,18 +18,19 @@ ROOT = os.path.dirname(os.path.dirname(os.path.abspath(__file__)))
 # C01: failing template -> finding (the template named in the culprit part of the
 # signature; internal AttributeErrors of the 'Extent' family are one finding)
 C01_TEMPLATE = {
-    "where.stmtlb2": "mask-lower-bound", "where.2dlb": "mask-lower-bound",
-    "where.two": "mask-lower-bound", "where.elemlast": "mask-lower-bound",
-    "where.nested": "nested", "where.nested2": "nested",
-    "where.sumbody": "reduction-argument", "where.summask": "reduction-argument",
-    "where.maxval": "reduction-argument", "where.sumother": "reduction-argument",
-    "where.size": "reduction-argument", "where.2dsum": "reduction-argument",
-    "where.elem": "cross-element", "where.elemmask": "cross-element",
-    "where.2delem": "cross-element", "where.sumbare": "cross-element",
-    "where.rev": "strided-section",
-    "where.barerhs": "bare-array-name", "where.baremixed": "bare-array-name",
-    "where.userred": "bare-array-name",
+    "where.stmtlb2": "where-mask-lower-bound", "where.2dlb": "where-mask-lower-bound",
+    "where.two": "where-mask-lower-bound", "where.elemlast": "where-mask-lower-bound",
+    "where.nested": "where-nested", "where.nested2": "where-nested",
+    "where.sumbody": "where-reduction-argument", "where.summask": "where-reduction-argument",
+    "where.maxval": "where-reduction-argument", "where.sumother": "where-reduction-argument",
+    "where.size": "where-reduction-argument", "where.2dsum": "where-reduction-argument",
+    "where.elem": "where-cross-element", "where.elemmask": "where-cross-element",
+    "where.2delem": "where-cross-element", "where.sumbare": "where-cross-element",
+    "where.rev": "where-strided-section",
+    "where.barerhs": "where-bare-array-name", "where.baremixed": "where-bare-array-name",
+    "where.userred": "where-bare-array-name",
     "sel.sidefx": "select-selector-reevaluated",
+    "sel.defonly": "select-default-only-reorders-codeblock",
     "do.concurrent": "do-concurrent-index", "do.concurrent2": "do-concurrent-index",
 }
 C01_EXTENT = re.compile(r":internal:AttributeError@(visitor\.py:_visit|"
